@@ -5,7 +5,9 @@
  * predecessors are done.
  * args: seed= progs= nw=
  */
+#ifndef _GNU_SOURCE
 #define _GNU_SOURCE
+#endif
 #include <limits.h>
 #include "hkm.h"
 
